@@ -147,8 +147,7 @@ def evaluate(wm, knobs, plan, ctx):
         V("bystander-changed", "%s %s" % (p, how))
     if res.mode != "exited":
         V("abnormal-termination", "edit run ended by %s" % res.ending())
-    elif res.status != 0 and not (wm.get("lock") and (core.read_lock(wm["lock"]) or 0) >= 0xFFFFFFF0):
-        V("edit-failed", "edit run under a benign schedule exited %d" % res.status)
+
     return viols, {"ntok": ntok, "fired": fired, "res": res}
 
 
